@@ -261,7 +261,8 @@ NodeUses(g, st, n) ==
 \* a callback-typed parameter of a callback gets its scope from a following GDestroyNotify: destroy index 1 of 2
 NodeIdx(g, st, n) ==
     IF g[n].kind = "callback" /\ g[n].site.role = "param" /\ g[n].site.scope /\ TargetKind(g, g[n].site) = "callback"
-      THEN << [id |-> QName(n), kind |-> "destroy", idx |-> 1, n |-> 2, marked |-> Marked(st, n)] >>
+      THEN << [id |-> QName(n), kind |-> "destroy", idx |-> 1, n |-> 2, marked |-> Marked(st, n),
+                pname |-> "destroy", want |-> "destroy"] >>
       ELSE <<>>
 
 \* the function whose (rename-to) names the method set_p of class c: a function can be shadowed once ("already
